@@ -186,7 +186,7 @@ def phi_leaves(v, conds=()):
     return [(conds, v)]
 
 
-def splines(chk, P):
+def splines(chk, P, rule="C07.O6"):
     mod = "atsim.potentials.spline"
     cls = P.cls(mod, "Custom_SplinePotential")
     sp = P.cls(mod, "Spline_Point")
@@ -212,29 +212,29 @@ def splines(chk, P):
     val = I.call(pot, [r], {})
     lv = phi_leaves(val)
     site = cls.lookup("__call__").site()
-    chk.ob("C07.O6", "Custom_SplinePotential.__call__ distinguishes three regions", len(lv) == 3, site=site, found=val,
-           expect="start / end / spline by position of r", key="C07.O6|custom|regions")
+    chk.ob(rule, "Custom_SplinePotential.__call__ distinguishes three regions", len(lv) == 3, site=site, found=val,
+           expect="start / end / spline by position of r", key=rule + "|custom|regions")
     for meth, order in (("deriv", 1), ("deriv2", 2)):
         dv = I.call(I.getattr(pot, meth), [r], {})
         ld = phi_leaves(dv)
         same = [c for c, _ in lv] == [c for c, _ in ld]
-        chk.ob("C07.O6", "%s classifies r into the same regions as __call__" % meth, same, site=cls.lookup("_" + meth).site(),
-               found=[c for c, _ in ld], expect=[c for c, _ in lv], key="C07.O6|custom|%s-regions" % meth)
+        chk.ob(rule, "%s classifies r into the same regions as __call__" % meth, same, site=cls.lookup("_" + meth).site(),
+               found=[c for c, _ in ld], expect=[c for c, _ in lv], key=rule + "|custom|%s-regions" % meth)
         if same:
             for (c, v0), (_, v1) in zip(lv, ld):
                 want = ep.D(I.num(v0), "r")
                 for _ in range(order - 1):
                     want = ep.D(want, "r")
                 ok, why = ep.equal(I.num(v1), want)
-                chk.ob("C07.O6", "%s in region %s is the derivative of that region's function" % (meth, _region(c)), ok,
+                chk.ob(rule, "%s in region %s is the derivative of that region's function" % (meth, _region(c)), ok,
                        site=cls.lookup("_" + meth).site(), found=why or v1, expect=want,
-                       key="C07.O6|custom|%s|%s" % (meth, _region(c)))
+                       key=rule + "|custom|%s|%s" % (meth, _region(c)))
     # Exp_Spline delegates attribute for attribute
     for meth, order in (("__call__", 0), ("deriv", 1), ("deriv2", 2)):
         v = I.num(I.call(I.getattr(holder, meth), [r], {}))
         want = ep.app(("param", "spline"), [ep.sym("r")], dorder=order)
-        chk.ob("C07.O6", "Exp_Spline.%s delegates to the spline callable's %s" % (meth, meth), ep.equal(v, want)[0],
-               site=holder.ci.lookup(meth).site(), found=v, expect=want, key="C07.O6|exp_spline|%s" % meth)
+        chk.ob(rule, "Exp_Spline.%s delegates to the spline callable's %s" % (meth, meth), ep.equal(v, want)[0],
+               site=holder.ci.lookup(meth).site(), found=v, expect=want, key=rule + "|exp_spline|%s" % meth)
     # Buck4_Spline: one selector for all three
     b4 = P.cls(mod, "Buck4_Spline")
     binst = InstV(b4)
@@ -252,9 +252,9 @@ def splines(chk, P):
                 want = ep.app(("param", which), [ep.sym("r")], dorder=order)
                 ok = ok and ep.equal(I.num(leaf), want)[0]
         ok = ok and [c for c, _ in leaves] == [c for c, _ in vals["__call__"]]
-        chk.ob("C07.O6", "Buck4_Spline.%s uses the quintic below r_min and the cubic above, same test as __call__" % meth, ok,
+        chk.ob(rule, "Buck4_Spline.%s uses the quintic below r_min and the cubic above, same test as __call__" % meth, ok,
                site=b4.lookup(meth).site(), found=v, expect="phi(r < r_min ? spline5%s(r) : spline3%s(r))" % ("'" * order, "'" * order),
-               key="C07.O6|buck4|%s" % meth)
+               key=rule + "|buck4|%s" % meth)
 
 
 def _region(conds):
